@@ -65,7 +65,7 @@ ASSUMPTIONS = [
 GRID = [0.5, 1.0, 2.0, 3.0, 5.0]
 SCHEDULES = [list(c) for k in range(1, 6) for c in itertools.combinations(GRID, k)]       # 31
 ITEMS = ["scene", "photon", "charge_array", "charge_clusters", "pixel", "signal", "image"]
-HISTORIES = ["fresh", "full", "failed", "prefilled"]
+HISTORIES = ["fresh", "full", "failed", "prefilled", "twin"]
 ROWS, COLS = 2, 3
 
 
@@ -229,7 +229,7 @@ def enumerate_cases(tier, seed):
     if not thorough:       # the two other histories on a reduced product
         for si, times in enumerate(SCHEDULES):
             for nd in (False, True):
-                for h in ("failed", "prefilled"):
+                for h in ("failed", "prefilled", "twin"):
                     cases.append({"fam": "L", "times": times, "start": [0.0, 0.25, -1.0][si % 3], "nd": nd,
                                   "pattern": list(ITEMS) if si % 2 else ["pixel"], "history": h, "det": "ccd",
                                   "entry": "ctor", "rep": "list"})
@@ -308,10 +308,10 @@ def enumerate_cases(tier, seed):
 def expected_size(tier, seed):
     thorough = tier == "thorough"
     if thorough:
-        n_l = 31 * 2 * 128 * 4
+        n_l = 31 * 2 * 128 * 5
     else:
-        n_l = 31 * 2 * 10 * 2 + 31 * 2 * 2
-    n_d = 3 * 4 * 2 * 4 * 2 + (3 * 2 * 128 if thorough else 2 * 2 * 9)
+        n_l = 31 * 2 * 10 * 2 + 31 * 2 * 3
+    n_d = 3 * 4 * 2 * 5 * 2 + (3 * 2 * 128 if thorough else 2 * 2 * 9)
     n_r = 0
     for si, times in enumerate(SCHEDULES):
         for rep in _reps_for(times):
@@ -441,8 +441,10 @@ def build_readout(case, tmp):
     raise KeyError(entry)
 
 
-def make_history(det, history, salt):
-    """Bring the detector into the requested prior state (runs real exposures)."""
+def make_history(det, history, salt, case=None):
+    """Bring the detector into the requested prior state (runs real exposures).
+    "twin": the preparatory run uses the SAME times and start time as the run under test, only the
+    destructive / non-destructive flag differs."""
     import pyxel
 
     if history == "fresh":
@@ -467,8 +469,14 @@ def make_history(det, history, salt):
     U.reset()
     if history == "failed":
         U.PLAN.update({"name": "boom", "step": 1})
+    prep = mk.exposure([1.0, 2.0, 4.0], True, 0.5)
+    if history == "twin":
+        try:
+            prep = mk.exposure([float(t) for t in decode(case["times"])], not case["nd"], float(_num(case["start"])))
+        except Exception:  # noqa: BLE001   (schedule under test not valid: plain "full" history)
+            pass
     try:
-        pyxel.run_mode(mk.exposure([1.0, 2.0, 4.0], True, 0.5), det, mk.pipeline(groups), with_inherited_coords=True)
+        pyxel.run_mode(prep, det, mk.pipeline(groups), with_inherited_coords=True)
     except U.PlannedFailure:
         pass
     U.reset()
@@ -581,7 +589,7 @@ def run_case(case):
                 det = mk.detector(case["det"], ROWS, COLS)
                 pipe = mk.pipeline(_pipeline_groups(case["pattern"], salt, pattern_odd=case.get("pattern_odd")))
             stage = "history"
-            make_history(det, case["history"], salt)
+            make_history(det, case["history"], salt, case)
             stage = "run"
             pyxel.run_mode(mode, det, pipe, with_inherited_coords=True)
             stage = "done"
